@@ -27,6 +27,7 @@ mod u2f;
 mod hid;
 mod status;
 mod rpid;
+mod cbor;
 
 fn main() {
     let args: Vec<String> = std::env::args().collect();
@@ -38,6 +39,8 @@ fn main() {
         "u2f-wf" => guarded(move || u2f::wellformed_parses(&hex(&arg))),
         "status-byte" => guarded(move || status::status_byte(&hex(&arg))),
         "flags-byte" => guarded(move || status::flags_byte(&hex(&arg))),
+        "cbor-bytes" => guarded(move || cbor::bytes(&hex(&arg))),
+        "cbor-make-credential-request" => guarded(move || cbor::mc_request(&hex(&arg))),
         "rpid-web" => guarded(move || rpid::web(&arg)),
         "hid-packets" => guarded(move || hid::packets_no_panic(&arg)),
         "hid-roundtrip" => guarded(move || hid::roundtrip(&arg)),
